@@ -1,6 +1,9 @@
 package dsim
 
-import "reflect"
+import (
+	"reflect"
+	"sort"
+)
 
 // Channel operations stay real Go channel operations wherever a non-blocking attempt can
 // succeed (buffered data, closed channels, a real goroutine already blocked on the other side).
@@ -474,6 +477,23 @@ func sortKeys[K comparable](keys []K) {
 	case reflect.String:
 		less = func(a, b K) bool { return reflect.ValueOf(a).String() < reflect.ValueOf(b).String() }
 	}
-	// insertion sort for tiny, otherwise simple merge via sort.Slice
-	sortSlice(keys, less)
+	switch rv.Kind() {
+	case reflect.Int, reflect.Int8, reflect.Int16, reflect.Int32, reflect.Int64,
+		reflect.Uint, reflect.Uint8, reflect.Uint16, reflect.Uint32, reflect.Uint64, reflect.String:
+		sortSlice(keys, less)
+		return
+	}
+	// other key types: format every key once, not once per comparison
+	type dk struct {
+		k K
+		s string
+	}
+	d := make([]dk, len(keys))
+	for i, k := range keys {
+		d[i] = dk{k, fmtKey(k)}
+	}
+	sort.Slice(d, func(i, j int) bool { return d[i].s < d[j].s })
+	for i := range d {
+		keys[i] = d[i].k
+	}
 }
